@@ -115,6 +115,45 @@ class SFP(sym.Sym):
     return SBool(z3.And(z3.Not(z3.fpIsNaN(self.z)), z3.Not(z3.fpIsInf(self.z))))
 
 
+class FPInt(sym.Sym):
+  """Result of astype(int8/int16) of a float: the truncated float value together with the
+  destination width; converting back gives the same float when it is in range, an arbitrary
+  value otherwise (wrap-around is not relied upon)."""
+  __slots__ = ("bits",)
+  _pyvc_fp = True
+
+  def __init__(self, z, bits):
+    super().__init__(z)
+    self.bits = bits
+
+  def in_range(self):
+    hi = float((1 << (self.bits - 1)) - 1)
+    lo = -float(1 << (self.bits - 1))
+    return SBool(z3.And(z3.fpLEQ(self.z, z3.FPVal(hi, F32)), z3.fpGEQ(self.z, z3.FPVal(lo, F32))))
+
+  def as_float(self):
+    g = z3.FP(cur().fresh_name("wrapped"), F32)
+    return SFP(z3.If(self.in_range().z, self.z, g))
+
+  def _cmp(self, o, f):
+    oz = fpval(o) if not isinstance(o, FPInt) else o.z
+    return SBool(f(self.z, oz))
+
+  def __le__(self, o):
+    return self._cmp(o, z3.fpLEQ)
+
+  def __ge__(self, o):
+    return self._cmp(o, z3.fpGEQ)
+
+  def __eq__(self, o):
+    return self._cmp(o, z3.fpEQ)
+
+  def __ne__(self, o):
+    return self._cmp(o, lambda a, b: z3.Not(z3.fpEQ(a, b)))
+
+  __hash__ = sym.Sym.__hash__
+
+
 def fresh_fp(name):
   return SFP(z3.FP(cur().fresh_name(name), F32))
 
@@ -125,6 +164,8 @@ class FPOps(T.ScalarOps):
 
   def cast(self, v, src, dst):
     if dst.kind == "f":
+      if isinstance(v, FPInt):
+        return v.as_float()
       if isinstance(v, SFP):
         return v
       z = fpval(v)
@@ -137,14 +178,7 @@ class FPOps(T.ScalarOps):
       return v != 0.0 if isinstance(v, SFP) else (v != 0)
     if dst.kind == "i":
       if isinstance(v, SFP):
-        # float -> signed integer conversion (round toward zero) then wrap to the destination width
-        bv = z3.fpToSBV(z3.RTZ(), v.z, z3.BitVecSort(32))
-        i = z3.BV2Int(bv, is_signed=True)
-        if dst.bits < 32:
-          m = 1 << dst.bits
-          h = m >> 1
-          i = ((i + h) % m) - h
-        return SInt(i)
+        return FPInt(z3.fpRoundToIntegral(z3.RTZ(), v.z), dst.bits)
       return super().cast(v, src, dst)
     return v
 
@@ -179,7 +213,9 @@ class FPOps(T.ScalarOps):
 
   def round(self, v):
     if isinstance(v, SFP):
-      return SFP(z3.fpRoundToIntegral(RNE, ftz(v.z)))
+      r = SFP(z3.fpRoundToIntegral(RNE, ftz(v.z)))
+      cur().ghost.setdefault("rounded", []).append((v, r))
+      return r
     return float(round(v))
 
   def sqrt(self, v):
